@@ -305,7 +305,7 @@ impl Monitor for Mon {
             }
         }
         let g = self.gen % 3;
-        let ch = |realm: bool, nonce: NonceKind, pas: PasKind| Chal { realm, nonce, pas };
+        let ch = |realm: bool, nonce: NonceKind, pas: PasKind| Chal { realm, nonce, pas, realm_v: 0 };
         let mut replies: Vec<Reply> = vec![
             Reply::plain(RClass::Error(401)).with_chal(ch(true, NonceKind::Plain(g), PasKind::Absent)),
             Reply::plain(RClass::Error(401)).with_chal(ch(true, NonceKind::Cookie(true, false, g), PasKind::Md5Sha256)),
@@ -316,6 +316,10 @@ impl Monitor for Mon {
             Reply::plain(RClass::Error(401)).with_chal(ch(false, NonceKind::Plain(g), PasKind::Absent)),
             Reply::plain(RClass::Error(401)).with_chal(ch(true, NonceKind::Absent, PasKind::Absent)),
             Reply::plain(RClass::Error(401)).with_chal(ch(true, NonceKind::Cookie(true, false, g), PasKind::Absent)),
+            // a challenge for the same realm spelled in another case, and for another realm (keys and USERHASH are
+            // case-sensitive in the realm: nothing derived for an earlier realm may be reused)
+            Reply::plain(RClass::Error(401)).with_chal(Chal { realm: true, nonce: NonceKind::Cookie(true, true, g), pas: PasKind::Md5Sha256, realm_v: 1 }),
+            Reply::plain(RClass::Error(401)).with_chal(Chal { realm: true, nonce: NonceKind::Plain(g), pas: PasKind::Absent, realm_v: 2 }),
             Reply::plain(RClass::Success),
             Reply::plain(RClass::Success).with_mac(RMac::Mi),
             Reply::plain(RClass::Success).with_mac(RMac::Sha),
@@ -394,8 +398,8 @@ pub fn run(ctx: &RunCtx) -> i32 {
         rep,
         Finish {
             level: "model_checking",
-            rule: format!("breadth-first exploration of the real long-term client on both transports, up to {} request/response exchanges (depth {}), over {{Send (empty application list, or one that pre-populates USERNAME / REALM / NONCE / PASSWORD-ALGORITHM(S) / USERHASH / both integrity attributes), Indicate, Timer, AdvanceTo(beyond), Deliver of 22 server behaviours: 401 x {{plain nonce; cookie nonce with password-algorithms bit and [MD5,SHA256] / [MD5] / [SHA256,MD5]+anonymity / unsupported list; anonymity only; missing realm; missing nonce; algorithms bit without the attribute}}, 438 with a new nonce x {{no MAC, MI, SHA256}} and without nonce, success x {{none, MI, SHA256, MI / SHA256 under another password}}, errors 400/420/500 with and without integrity, an authenticated indication}}. Replies are built by the reference codec and keyed from the request's PASSWORD-ALGORITHM; server replies are not restricted to what an RFC server would send next. Monitor: first request free of the eight credential attributes; a complete 401 / a 438 with nonce yields Retry; every later request is judged by the independent RFC 8489 9.2.4 acceptance function against the most recent challenge (username or userhash, realm, nonce, password algorithms echo and choice, MAC under MD5/SHA-256(user:realm:password)) and must use SHA-256 integrity iff algorithms were offered; success and ordinary error responses are delivered only if a MAC of the right kind verifies, and are delivered when the request was acceptable and the MAC verifies; indications refused both ways; the password's bytes occur in no packet", exchanges, 2 * exchanges + 1),
-            assumptions: vec!["single user / realm / password".into(), "a 438 carries a nonce with the same cookie bits as the challenge in force (and repeats PASSWORD-ALGORITHMS when the bit is set); a reply to a request sent under an older challenge is only required not to be delivered unauthenticated".into(), "inconsistent challenges (PASSWORD-ALGORITHMS without the cookie bit or vice versa) are explored for robustness but requests are not judged against them".into()],
+            rule: format!("breadth-first exploration of the real long-term client on both transports, up to {} request/response exchanges (depth {}), over {{Send (empty application list, or one that pre-populates USERNAME / REALM / NONCE / PASSWORD-ALGORITHM(S) / USERHASH / both integrity attributes), Indicate, Timer, AdvanceTo(beyond), Deliver of 24 server behaviours: 401 x {{plain nonce; the realm in another letter case with cookie nonce + anonymity; another realm; cookie nonce with password-algorithms bit and [MD5,SHA256] / [MD5] / [SHA256,MD5]+anonymity / unsupported list; anonymity only; missing realm; missing nonce; algorithms bit without the attribute}}, 438 with a new nonce x {{no MAC, MI, SHA256}} and without nonce, success x {{none, MI, SHA256, MI / SHA256 under another password}}, errors 400/420/500 with and without integrity, an authenticated indication}}. Replies are built by the reference codec and keyed from the request's PASSWORD-ALGORITHM; server replies are not restricted to what an RFC server would send next. Monitor: first request free of the eight credential attributes; a complete 401 / a 438 with nonce yields Retry; every later request is judged by the independent RFC 8489 9.2.4 acceptance function against the most recent challenge (username or userhash, realm, nonce, password algorithms echo and choice, MAC under MD5/SHA-256(user:realm:password)) and must use SHA-256 integrity iff algorithms were offered; success and ordinary error responses are delivered only if a MAC of the right kind verifies, and are delivered when the request was acceptable and the MAC verifies; indications refused both ways; the password's bytes occur in no packet", exchanges, 2 * exchanges + 1),
+            assumptions: vec!["single user / password; three realms (one differing from the first only in letter case)".into(), "a 438 carries a nonce with the same cookie bits as the challenge in force (and repeats PASSWORD-ALGORITHMS when the bit is set); a reply to a request sent under an older challenge is only required not to be delivered unauthenticated".into(), "inconsistent challenges (PASSWORD-ALGORITHMS without the cookie bit or vice versa) are explored for robustness but requests are not judged against them".into()],
             required_symbols: vec!["bfs-configs", "first-request-clean", "retry-after-401", "retry-after-438", "request-accepted-by-reference-server", "authenticated-response-delivered", "unauthenticated-response-rejected", "indication-refused", "indication-not-delivered"],
             min_outcomes: 8,
             exhaustive: true,
